@@ -669,6 +669,26 @@ fn emit_fn(out: &mut Value, req: &Value, sig: &Signature, block: &Block, impl_hd
         }
         n.log("N11d-slice-option-return", sig.ident.span());
     }
+    // N11f (slices that contain an early `return E` of the enclosing function): with `slice_wrap_return=1` the slice returns
+    // `Option<T>`: `return E;` is `return Some(E);` (the enclosing function returns E there) and falling through the slice is the
+    // tail given by `slice_tail=None`
+    if req["slice_wrap_return"].as_bool().unwrap_or(false) {
+        struct WR;
+        impl VisitMut for WR {
+            fn visit_expr_mut(&mut self, e: &mut Expr) {
+                match e {
+                    Expr::Closure(_) | Expr::Async(_) => {}
+                    Expr::Return(r) => {
+                        if let Some(v) = r.expr.take() { r.expr = Some(Box::new(parse_quote!(Some(#v)))); }
+                    }
+                    _ => visit_mut::visit_expr_mut(self, e),
+                }
+            }
+            fn visit_item_mut(&mut self, _: &mut Item) {}
+        }
+        WR.visit_block_mut(&mut b);
+        n.log("N11f-slice-wrap-return", sig.ident.span());
+    }
     n.mark_loops(&mut b);
     out["body"] = json!(print_block(&b));
     out["loops"] = json!(n.loops);
